@@ -534,8 +534,10 @@ class ParentsProvider:
         if commit_id in self.shallows:
             return []
 
-        # Try to use commit graph for faster parent lookup
-        if self.commit_graph:
+        # Try to use commit graph for faster parent lookup. The file may be
+        # stale (it is not rewritten when gc prunes commits) or come from
+        # another repository, so it only answers for commits that exist here.
+        if self.commit_graph and (commit is not None or commit_id in self.store):
             parents = self.commit_graph.get_parents(commit_id)
             if parents is not None:
                 return parents
